@@ -83,17 +83,50 @@ Proof.
       rewrite (IH a Hp Ha). rewrite (Ascii.eqb_sym c d). reflexivity.
 Qed.
 
-Lemma chomp_cr_spec s : s = chomp_cr s \/ s = chomp_cr s ++ String cr "".
+
+(* trailing CRs *)
+Definition all_cr (s : string) : bool := all_chars (fun c => Ascii.eqb c cr) s.
+
+Lemma chomp_split s : exists crs, s = chomp_cr s ++ crs /\ all_cr crs = true.
 Proof.
-  induction s as [|c s IH]; [left; reflexivity|].
-  destruct s as [|d s].
-  - cbn [chomp_cr]. destruct (Ascii.eqb c cr) eqn:E; [right|left]; [|reflexivity].
-    apply Ascii.eqb_eq in E; subst; reflexivity.
-  - change (chomp_cr (String c (String d s))) with (String c (chomp_cr (String d s))).
-    destruct IH as [IH|IH]; [left|right]; cbn [append]; rewrite <- IH; reflexivity.
+  induction s as [|c s (crs & E & H)]; [exists ""; split; reflexivity|].
+  cbn [chomp_cr]. destruct (chomp_cr s) as [|d r] eqn:Ec.
+  - cbn [append] in E. destruct (Ascii.eqb c cr) eqn:Ecr.
+    + exists (String c crs). split; [cbn [append]; rewrite <- E; reflexivity|].
+      unfold all_cr in *. cbn [all_chars]. rewrite Ecr, H. reflexivity.
+    + exists crs. split; [cbn [append]; rewrite <- E; reflexivity|exact H].
+  - exists crs. split; [|exact H]. cbn [append]. cbn [append] in E. rewrite <- E. reflexivity.
 Qed.
 
-(* chars / py_strip and a trailing CR *)
+Lemma chomp_all_cr crs : all_cr crs = true -> chomp_cr crs = "".
+Proof.
+  unfold all_cr. induction crs as [|c crs IH]; [reflexivity|]. cbn [all_chars]. intros H.
+  apply andb_true_iff in H as [Hc H]. cbn [chomp_cr]. rewrite (IH H), Hc. reflexivity.
+Qed.
+Lemma chomp_app_crs x crs : all_cr crs = true -> chomp_cr (x ++ crs) = chomp_cr x.
+Proof.
+  intros H. induction x as [|c x IH]; [apply chomp_all_cr; exact H|].
+  cbn [append chomp_cr]. rewrite IH. reflexivity.
+Qed.
+Lemma chomp_idem s : chomp_cr (chomp_cr s) = chomp_cr s.
+Proof.
+  destruct (chomp_split s) as (crs & E & H).
+  pose proof (chomp_app_crs (chomp_cr s) crs H) as P. rewrite <- E in P. symmetry. exact P.
+Qed.
+Lemma chomp_app_nonempty x y : chomp_cr y <> "" -> chomp_cr (x ++ y) = x ++ chomp_cr y.
+Proof.
+  intros Hy. induction x as [|c x IH]; [reflexivity|]. cbn [append chomp_cr]. rewrite IH.
+  destruct (x ++ chomp_cr y) eqn:E; [|reflexivity].
+  destruct x; cbn [append] in E; [contradiction|discriminate].
+Qed.
+Lemma chomp_head c r l : chomp_cr l = String c r -> exists l', l = String c l'.
+Proof.
+  destruct l as [|d l]; [discriminate|]. cbn [chomp_cr]. destruct (chomp_cr l).
+  - destruct (Ascii.eqb d cr); [discriminate|]. intros H; inversion H; subst. eauto.
+  - intros H; inversion H; subst. eauto.
+Qed.
+
+(* chars / py_strip and trailing CRs *)
 Lemma chars_app_cr s : chars (s ++ String cr "") = (chars s ++ [String cr ""])%list.
 Proof.
   induction s as [|c s IH]; [reflexivity|].
@@ -112,14 +145,47 @@ Qed.
 Lemma py_strip_cr s : py_strip (s ++ String cr "") = py_strip s.
 Proof. unfold py_strip. rewrite chars_app_cr, rstripl_snoc; reflexivity. Qed.
 
-Lemma py_strip_chomp l v : (l = v \/ l = v ++ String cr "") -> py_strip l = py_strip v.
-Proof. intros [->| ->]; [reflexivity|apply py_strip_cr]. Qed.
+Lemma py_strip_crs crs : forall v, all_cr crs = true -> py_strip (v ++ crs) = py_strip v.
+Proof.
+  unfold all_cr. induction crs as [|c crs IH]; intros v H; [rewrite app_nil_r_s; reflexivity|].
+  cbn [all_chars] in H. apply andb_true_iff in H as [Hc H]. apply Ascii.eqb_eq in Hc; subst c.
+  change (v ++ String cr crs) with (v ++ (String cr "" ++ crs)). rewrite <- app_assoc_s.
+  rewrite (IH _ H). apply py_strip_cr.
+Qed.
+
+(* the code's rstrip("\r") and continuation test are the specification's *)
+Lemma py_rstrip_cr s : py_rstrip_chars c11_unfold_rstrip s = chomp_cr s.
+Proof.
+  unfold py_rstrip_chars. change c11_unfold_rstrip with (String cr "").
+  induction s as [|c s IH]; [reflexivity|]. cbn [ascii_list rstripl chomp_cr]. rewrite <- IH.
+  destruct (rstripl _ (ascii_list s)) as [|a r]; cbn [of_ascii_list]; [|reflexivity].
+  cbn [mem_ascii]. rewrite orb_false_r. destruct (Ascii.eqb c cr); reflexivity.
+Qed.
+Lemma code_is_cont_eq l : code_is_cont l = is_cont_line l.
+Proof.
+  destruct l as [|c l]; [reflexivity|]. unfold code_is_cont, is_cont_line, is_lwsp.
+  change c11_cont_chars with [" "%char; ascii_of_nat 9]. cbn [existsb]. rewrite orb_false_r. reflexivity.
+Qed.
+Lemma lwsp_not_cr c : is_lwsp c = true -> Ascii.eqb c cr = false.
+Proof.
+  unfold is_lwsp. intros H. apply orb_true_iff in H as [H|H]; apply Ascii.eqb_eq in H; subst; reflexivity.
+Qed.
+Lemma cont_chomp_head l : is_cont_line l = true -> forall x, is_cont_line (chomp_cr l ++ x) = true.
+Proof.
+  destruct l as [|c l]; [discriminate|]. cbn [is_cont_line]. intros Hc x. cbn [chomp_cr].
+  destruct (chomp_cr l); [rewrite (lwsp_not_cr c Hc)|]; cbn [append is_cont_line]; exact Hc.
+Qed.
+Lemma cont_of_chomp l : chomp_cr l <> "" -> is_cont_line (chomp_cr l) = is_cont_line l.
+Proof.
+  intros H. destruct (chomp_cr l) as [|c r] eqn:E; [contradiction|].
+  destruct (chomp_head c r l E) as [l' ->]. reflexivity.
+Qed.
 
 (* ------------------------------------------------------------------------------------ *)
 (* B. one iteration of the loop, on the shapes T1 generated *)
 
-Definition br_name := mkBranch TName true "name:" (ExSplit colon 1) true.
-Definition br_version := mkBranch TVersion true "version:" (ExSplit colon 1) true.
+Definition br_name := mkBranch TName true "name:" (ExPartition colon 2) true.
+Definition br_version := mkBranch TVersion true "version:" (ExPartition colon 2) true.
 Definition br_req := mkBranch TReq false "requires-dist:" (ExPartition colon 2) true.
 
 (* T1 obligation: the generated branch list is the one these proofs are about *)
@@ -129,7 +195,9 @@ Lemma line_sep_pinned : c11_line_sep = nl.
 Proof. reflexivity. Qed.
 
 Definition none_b {A} (o : option A) : bool := match o with None => true | Some _ => false end.
-
+Definition prefix_like (l : string) : bool :=
+  let ll := lower l in
+  startswith ll "name:" || startswith ll "version:" || startswith ll "requires-dist:".
 Lemma p_step_unfold s l :
   p_step s l =
   if p_index_error s then s else
@@ -158,48 +226,43 @@ Proof.
   apply prefix_field; [exact Hp|]. rewrite noc_lower. exact Hn.
 Qed.
 
-Lemma noc_cr v : noc colon v = true -> noc colon (v ++ String cr "") = true.
-Proof. intros H. rewrite noc_app, H. reflexivity. Qed.
 
-Lemma p_step_field s n w v :
-  p_index_error s = false -> noc colon n = true ->
-  (w = v \/ w = v ++ String cr "") ->
-  (String.eqb (lower n) "name" || String.eqb (lower n) "version" = true -> noc colon v = true) ->
-  p_step s (n ++ String colon w) = sel_step s (lower n, py_strip v).
+Lemma p_step_field s n v crs :
+  p_index_error s = false -> noc colon n = true -> all_cr crs = true ->
+  p_step s (n ++ String colon (v ++ crs)) = sel_step s (lower n, py_strip v).
 Proof.
-  intros Hi Hn Hw Hc.
-  assert (Hs : forall q, q = v \/ q = v ++ String cr "" -> noc colon v = true -> noc colon q = true).
-  { intros q [->| ->] Hv; [exact Hv|apply noc_cr; exact Hv]. }
+  intros Hi Hn Hcr.
   rewrite p_step_unfold, Hi.
   change "name:" with ("name" ++ String colon "").
   change "version:" with ("version" ++ String colon "").
   change "requires-dist:" with ("requires-dist" ++ String colon "").
   rewrite !startswith_field by (exact Hn || reflexivity).
   unfold sel_step.
+  assert (Hb : forall b, b_extr b = ExPartition colon 2 -> b_strip b = true ->
+            apply_branch s (n ++ String colon (v ++ crs)) b =
+            match b_target b with
+            | TName => mkP (Some (py_strip v)) (p_version s) (p_reqs s) (p_index_error s)
+            | TVersion => mkP (p_name s) (Some (py_strip v)) (p_reqs s) (p_index_error s)
+            | TReq => mkP (p_name s) (p_version s) (p_reqs s ++ [py_strip v]) (p_index_error s)
+            end).
+  { intros b He Hs. unfold apply_branch. rewrite He, Hs. cbn [run_extr].
+    rewrite ppartition_app by exact Hn. cbn [nth_error]. rewrite (py_strip_crs crs v Hcr). reflexivity. }
   destruct (String.eqb (lower n) "name") eqn:E1.
-  - assert (Hv : noc colon v = true) by (apply Hc; reflexivity).
-    apply String.eqb_eq in E1. rewrite E1. cbn [String.eqb Ascii.eqb Bool.eqb andb].
+  - apply String.eqb_eq in E1. rewrite E1. cbn [String.eqb Ascii.eqb Bool.eqb andb].
     destruct (p_name s); cbn [none_b andb]; [rewrite andb_false_r; reflexivity|].
-    unfold apply_branch, br_name. cbn [b_extr b_strip b_target run_extr].
-    rewrite psplit_app by exact Hn. rewrite (psplit_noc colon w) by (apply Hs; assumption).
-    cbn [nth_error]. rewrite (py_strip_chomp w v Hw). reflexivity.
+    rewrite Hb by reflexivity. reflexivity.
   - rewrite andb_false_r.
     destruct (String.eqb (lower n) "version") eqn:E2.
-    + assert (Hv : noc colon v = true) by (apply Hc; reflexivity).
-      destruct (p_version s); cbn [none_b andb].
+    + destruct (p_version s); cbn [none_b andb].
       * apply String.eqb_eq in E2. rewrite E2. reflexivity.
-      * unfold apply_branch, br_version. cbn [b_extr b_strip b_target run_extr].
-        rewrite psplit_app by exact Hn. rewrite (psplit_noc colon w) by (apply Hs; assumption).
-        cbn [nth_error]. rewrite (py_strip_chomp w v Hw). reflexivity.
+      * rewrite Hb by reflexivity. reflexivity.
     + rewrite andb_false_r.
       destruct (String.eqb (lower n) "requires-dist") eqn:E3; [|reflexivity].
-      unfold apply_branch, br_req. cbn [b_extr b_strip b_target run_extr].
-      rewrite ppartition_app by exact Hn. cbn [nth_error].
-      rewrite (py_strip_chomp w v Hw). reflexivity.
+      rewrite Hb by reflexivity. reflexivity.
 Qed.
 
 (* ------------------------------------------------------------------------------------ *)
-(* C. the header block: loop = selection over the RFC 822 fields *)
+(* C. the header block: unfolding + loop = selection over the RFC 822 fields *)
 
 Lemma sel_step_index s f : p_index_error (sel_step s f) = p_index_error s.
 Proof.
@@ -209,29 +272,16 @@ Proof.
   destruct (String.eqb n "requires-dist"); reflexivity.
 Qed.
 
-Lemma sel_step_unselected s n v : selected_name n = false -> sel_step s (n, v) = s.
-Proof.
-  unfold selected_name, sel_step. intros H.
-  apply orb_false_iff in H as [H H3]. apply orb_false_iff in H as [H1 H2].
-  rewrite H1, H2, H3. reflexivity.
-Qed.
-
-Definition cur_sel (cur : option (string * string)) : bool :=
-  match cur with Some (n, _) => selected_name (lower n) | None => false end.
 Definition apply_cur (s : pstate) (cur : option (string * string)) : pstate :=
   fold_left sel_step (flush cur) s.
 
 Lemma apply_cur_index s cur : p_index_error (apply_cur s cur) = p_index_error s.
 Proof. destruct cur as [[n v]|]; unfold apply_cur; cbn [flush fold_left]; [apply sel_step_index|reflexivity]. Qed.
 
-Lemma cont_not_prefix_like l : is_cont_line (chomp_cr l) = true -> prefix_like l = false.
+Lemma cont_not_prefix_like l : is_cont_line l = true -> prefix_like l = false.
 Proof.
-  intros H. destruct l as [|c l]; [discriminate|].
-  assert (Hc : is_lwsp c = true).
-  { destruct l as [|d l].
-    - cbn [chomp_cr] in H. destruct (Ascii.eqb c cr); [discriminate|exact H].
-    - exact H. }
-  unfold is_lwsp in Hc. apply orb_true_iff in Hc as [Hc|Hc]; apply Ascii.eqb_eq in Hc; subst; reflexivity.
+  destruct l as [|c l]; [discriminate|]. cbn [is_cont_line]. unfold is_lwsp. intros Hc.
+  apply orb_true_iff in Hc as [Hc|Hc]; apply Ascii.eqb_eq in Hc; subst; reflexivity.
 Qed.
 
 Lemma field_split_spec l n v :
@@ -243,106 +293,230 @@ Proof.
   intros H; inversion H; subst. apply ppartition_found. exact P.
 Qed.
 
-Lemma has_colon_noc v : has_colon v = false -> noc colon v = true.
+(* the code's current (last, still growing) unfolded line against the specification's current field *)
+Definition inv (cur : option (string * string)) (cl : string) : Prop :=
+  match cur with
+  | Some (n, v) => noc colon n = true /\ chomp_cr (n ++ String colon v) = n ++ String colon v /\
+                   exists crs, cl = n ++ String colon (v ++ crs) /\ all_cr crs = true
+  | None => is_cont_line cl = true
+  end.
+
+Lemma step_cur s cur cl : p_index_error s = false -> inv cur cl -> p_step s cl = apply_cur s cur.
 Proof.
-  unfold has_colon, noc. induction v as [|c v IH]; [reflexivity|].
-  cbn [ascii_list existsb all_chars]. intros H. apply orb_false_iff in H as [H1 H2].
-  rewrite (Ascii.eqb_sym c colon), H1. cbn. apply IH. exact H2.
+  intros Hi H. destruct cur as [[n v]|]; cbn [inv] in H.
+  - destruct H as (Hn & _ & crs & -> & Hcr). unfold apply_cur. cbn [flush fold_left].
+    apply p_step_field; assumption.
+  - unfold apply_cur. cbn [flush fold_left]. apply p_step_not_prefix, cont_not_prefix_like, H.
 Qed.
 
-Lemma main_hdr hl : forall cur s,
+Lemma inv_field l n v : field_split (chomp_cr l) = Some (n, v) -> inv (Some (n, v)) l.
+Proof.
+  intros Ef. destruct (field_split_spec _ _ _ Ef) as [El Hn]. cbn [inv]. split; [exact Hn|]. split.
+  - rewrite <- El. apply chomp_idem.
+  - destruct (chomp_split l) as (crs & E & Hcr). exists crs. split; [|exact Hcr].
+    rewrite E at 1. rewrite El, app_assoc_s. reflexivity.
+Qed.
+
+Lemma main_hdr hl : forall cur cl s,
+  p_index_error s = false -> inv cur cl ->
+  forallb (fun l => hdr_line (chomp_cr l)) hl = true ->
+  fold_left p_step (unfold_from cl hl) s = fold_left sel_step (fields_of hl cur) s.
+Proof.
+  induction hl as [|l hl IH]; intros cur cl s Hi Hinv Hh.
+  - cbn [unfold_from fields_of fold_left]. rewrite (step_cur s cur cl Hi Hinv). reflexivity.
+  - cbn [forallb] in Hh. apply andb_true_iff in Hh as [Hl Hh].
+    assert (Hne : chomp_cr l <> "") by (intros E; rewrite E in Hl; discriminate).
+    cbn [unfold_from fields_of]. rewrite code_is_cont_eq, py_rstrip_cr, (cont_of_chomp l Hne).
+    destruct (is_cont_line l) eqn:Ec.
+    + destruct cur as [[n v]|].
+      * apply IH; [exact Hi| |exact Hh]. cbn [inv] in *. destruct Hinv as (Hn & Hch & crs & -> & Hcr).
+        split; [exact Hn|].
+        assert (E1 : chomp_cr (n ++ String colon (v ++ crs)) = n ++ String colon v).
+        { change (n ++ String colon (v ++ crs)) with (n ++ (String colon v ++ crs)).
+          rewrite <- app_assoc_s. rewrite (chomp_app_crs _ crs Hcr). exact Hch. }
+        split.
+        -- change (n ++ String colon (v ++ chomp_cr l)) with (n ++ (String colon v ++ chomp_cr l)).
+           rewrite <- app_assoc_s.
+           pose proof (chomp_app_nonempty (n ++ String colon v) (chomp_cr l)) as P.
+           rewrite chomp_idem in P. apply P. exact Hne.
+        -- destruct (chomp_split l) as (crs' & El & Hcr'). exists crs'. split; [|exact Hcr'].
+           rewrite E1. rewrite El at 1.
+           change (n ++ String colon ((v ++ chomp_cr l) ++ crs')) with (n ++ (String colon ((v ++ chomp_cr l) ++ crs'))).
+           rewrite !app_assoc_s. cbn [append]. rewrite ?app_assoc_s. reflexivity.
+      * apply IH; [exact Hi| |exact Hh]. cbn [inv] in *. apply cont_chomp_head. exact Hinv.
+    + destruct (field_split (chomp_cr l)) as [[n v]|] eqn:Ef.
+      * cbn [fold_left]. rewrite (step_cur s cur cl Hi Hinv). rewrite fold_left_app. fold (apply_cur s cur).
+        apply IH; [rewrite apply_cur_index; exact Hi|apply inv_field; exact Ef|exact Hh].
+      * unfold hdr_line in Hl. rewrite (cont_of_chomp l Hne), Ec, Ef in Hl. destruct (chomp_cr l); discriminate.
+Qed.
+
+Lemma hdr_block hl s :
   p_index_error s = false ->
   forallb (fun l => hdr_line (chomp_cr l)) hl = true ->
-  no_folded_in hl (cur_sel cur) = true ->
-  forallb single_colon_line hl = true ->
-  fold_left p_step hl (apply_cur s cur) = fold_left sel_step (fields_of hl cur) s.
+  fold_left p_step (unfold_lines hl) s = fold_left sel_step (fields_of hl None) s.
 Proof.
-  induction hl as [|l hl IH]; intros cur s Hi Hh Hf Hc.
-  - reflexivity.
-  - cbn [forallb] in Hh, Hc. apply andb_true_iff in Hh as [Hl Hh]. apply andb_true_iff in Hc as [Hcl Hc].
-    cbn [no_folded_in] in Hf. cbn [fields_of fold_left].
-    destruct (is_cont_line (chomp_cr l)) eqn:Ec.
-    + apply andb_true_iff in Hf as [Hns Hf]. apply negb_true_iff in Hns.
-      rewrite (p_step_not_prefix _ l (cont_not_prefix_like l Ec)).
-      destruct cur as [[n v]|].
-      * assert (Ha : forall v', apply_cur s (Some (n, v')) = s).
-        { intros v'. unfold apply_cur. cbn [flush fold_left]. apply sel_step_unselected. exact Hns. }
-        pose proof (IH (Some (n, v ++ chomp_cr l)) s Hi Hh Hf Hc) as IH'.
-        rewrite Ha in IH'. rewrite Ha. exact IH'.
-      * apply IH; assumption.
-    + destruct (field_split (chomp_cr l)) as [[n v]|] eqn:Ef.
-      * destruct (field_split_spec _ _ _ Ef) as [El Hn].
-        rewrite fold_left_app. fold (apply_cur s cur).
-        assert (Hstep : p_step (apply_cur s cur) l = apply_cur (apply_cur s cur) (Some (n, v))).
-        { unfold apply_cur at 2. cbn [flush fold_left].
-          destruct (chomp_cr_spec l) as [E|E]; rewrite E, El.
-          - apply p_step_field; [rewrite apply_cur_index; exact Hi|exact Hn|left; reflexivity|].
-            intros Hnv. unfold single_colon_line in Hcl. rewrite Ef, Hnv in Hcl.
-            apply negb_true_iff in Hcl. apply has_colon_noc. exact Hcl.
-          - rewrite app_assoc_s. cbn [append].
-            apply p_step_field; [rewrite apply_cur_index; exact Hi|exact Hn|right; reflexivity|].
-            intros Hnv. unfold single_colon_line in Hcl. rewrite Ef, Hnv in Hcl.
-            apply negb_true_iff in Hcl. apply has_colon_noc. exact Hcl. }
-        rewrite Hstep. apply IH; [rewrite apply_cur_index; exact Hi|exact Hh|exact Hf|exact Hc].
-      * unfold hdr_line in Hl. rewrite Ec, Ef in Hl. destruct (chomp_cr l); discriminate.
+  intros Hi Hh. destruct hl as [|l hl]; [reflexivity|].
+  cbn [forallb] in Hh. apply andb_true_iff in Hh as [Hl Hh].
+  assert (Hne : chomp_cr l <> "") by (intros E; rewrite E in Hl; discriminate).
+  cbn [unfold_lines fields_of]. rewrite (cont_of_chomp l Hne).
+  destruct (is_cont_line l) eqn:Ec.
+  - apply main_hdr; [exact Hi|exact Ec|exact Hh].
+  - destruct (field_split (chomp_cr l)) as [[n v]|] eqn:Ef.
+    + cbn [flush app]. apply main_hdr; [exact Hi|apply inv_field; exact Ef|exact Hh].
+    + unfold hdr_line in Hl. rewrite (cont_of_chomp l Hne), Ec, Ef in Hl. destruct (chomp_cr l); discriminate.
 Qed.
 
 Lemma span_hdr_spec ls :
   ls = (fst (span_hdr ls) ++ snd (span_hdr ls))%list /\
-  forallb (fun l => hdr_line (chomp_cr l)) (fst (span_hdr ls)) = true.
+  forallb (fun l => hdr_line (chomp_cr l)) (fst (span_hdr ls)) = true /\
+  match snd (span_hdr ls) with [] => True | b :: _ => is_cont_line b = false end.
 Proof.
-  induction ls as [|l ls [IH1 IH2]]; [split; reflexivity|].
-  cbn [span_hdr]. destruct (hdr_line (chomp_cr l)) eqn:E; [|split; reflexivity].
-  destruct (span_hdr ls) as [h b]. cbn [fst snd] in *. split.
-  - cbn [app]. f_equal. exact IH1.
-  - cbn [forallb]. rewrite E, IH2. reflexivity.
+  induction ls as [|l ls (IH1 & IH2 & IH3)]; [repeat split|].
+  cbn [span_hdr]. destruct (hdr_line (chomp_cr l)) eqn:E.
+  - destruct (span_hdr ls) as [h b]. cbn [fst snd] in *. repeat split.
+    + cbn [app]. f_equal. exact IH1.
+    + cbn [forallb]. rewrite E, IH2. reflexivity.
+    + exact IH3.
+  - cbn [fst snd]. repeat split.
+    destruct (is_cont_line l) eqn:Ec; [|reflexivity]. exfalso.
+    destruct l as [|c l]; [discriminate|]. cbn [is_cont_line] in Ec.
+    assert (Hh : exists r, chomp_cr (String c l) = String c r).
+    { cbn [chomp_cr]. destruct (chomp_cr l); [rewrite (lwsp_not_cr c Ec)|]; eauto. }
+    destruct Hh as [r Hr]. rewrite Hr in E. unfold hdr_line in E. cbn [is_cont_line] in E.
+    rewrite Ec in E. discriminate.
 Qed.
 
-Lemma fold_not_prefix bl : forall s,
-  forallb (fun l => negb (prefix_like l)) bl = true -> fold_left p_step bl s = s.
+Lemma unfold_from_app ls1 : forall cur l ls2,
+  is_cont_line l = false ->
+  unfold_from cur (ls1 ++ l :: ls2)%list = (unfold_from cur ls1 ++ unfold_from l ls2)%list.
 Proof.
-  induction bl as [|l bl IH]; intros s H; [reflexivity|].
-  cbn [forallb] in H. apply andb_true_iff in H as [H1 H2]. apply negb_true_iff in H1.
-  cbn [fold_left]. rewrite (p_step_not_prefix s l H1). apply IH. exact H2.
+  induction ls1 as [|x ls1 IH]; intros cur l ls2 Hl.
+  - cbn [app unfold_from]. rewrite code_is_cont_eq, Hl. reflexivity.
+  - cbn [app unfold_from]. destruct (code_is_cont x); [apply IH; exact Hl|].
+    rewrite (IH x l ls2 Hl). reflexivity.
+Qed.
+Lemma unfold_lines_app hl bl :
+  match bl with [] => True | b :: _ => is_cont_line b = false end ->
+  unfold_lines (hl ++ bl)%list = (unfold_lines hl ++ unfold_lines bl)%list.
+Proof.
+  intros Hb. destruct hl as [|l hl]; [reflexivity|]. destruct bl as [|b bl].
+  - rewrite !app_nil_r. reflexivity.
+  - cbn [app unfold_lines]. apply unfold_from_app. exact Hb.
+Qed.
+Lemma p_step_harmless s l :
+  startswith (lower l) "requires-dist:" = false ->
+  (none_b (p_name s) = false \/ startswith (lower l) "name:" = false) ->
+  (none_b (p_version s) = false \/ startswith (lower l) "version:" = false) ->
+  p_step s l = s.
+Proof.
+  intros Hr Hn Hv. rewrite p_step_unfold, Hr. destruct (p_index_error s); [reflexivity|].
+  assert (E1 : none_b (p_name s) && startswith (lower l) "name:" = false)
+    by (destruct Hn as [-> | ->]; [reflexivity|apply andb_false_r]).
+  assert (E2 : none_b (p_version s) && startswith (lower l) "version:" = false)
+    by (destruct Hv as [-> | ->]; [reflexivity|apply andb_false_r]).
+  rewrite E1, E2. reflexivity.
 Qed.
 
-(* the unguarded statement (FALSE of the unchanged code: see the refutations below) *)
+Lemma sel_step_name_mono s f : none_b (p_name s) = false -> none_b (p_name (sel_step s f)) = false.
+Proof.
+  destruct f as [n v], s as [pn pv pr pe]. unfold sel_step. cbn [p_name p_version p_reqs p_index_error].
+  intros H. destruct pn; [|discriminate].
+  destruct (String.eqb n "name"); [reflexivity|].
+  destruct (String.eqb n "version"); [destruct pv; reflexivity|].
+  destruct (String.eqb n "requires-dist"); reflexivity.
+Qed.
+Lemma sel_step_version_mono s f : none_b (p_version s) = false -> none_b (p_version (sel_step s f)) = false.
+Proof.
+  destruct f as [n v], s as [pn pv pr pe]. unfold sel_step. cbn [p_name p_version p_reqs p_index_error].
+  intros H. destruct pv; [|discriminate].
+  destruct (String.eqb n "name"); [destruct pn; reflexivity|].
+  destruct (String.eqb n "version"); [reflexivity|].
+  destruct (String.eqb n "requires-dist"); reflexivity.
+Qed.
+
+Lemma fold_sel_name fs : forall s,
+  (none_b (p_name s) = false \/ has_field "name" fs = true) ->
+  none_b (p_name (fold_left sel_step fs s)) = false.
+Proof.
+  induction fs as [|f fs IH]; intros s H; cbn [fold_left].
+  - destruct H as [H|H]; [exact H|discriminate].
+  - apply IH. destruct H as [H|H]; [left; apply sel_step_name_mono; exact H|].
+    unfold has_field in H. cbn [existsb] in H. apply orb_true_iff in H as [H|H]; [left|right; exact H].
+    destruct f as [n v]. cbn [fst] in H. unfold sel_step. rewrite H.
+    destruct (p_name s) eqn:E; [rewrite E|]; reflexivity.
+Qed.
+Lemma fold_sel_version fs : forall s,
+  (none_b (p_version s) = false \/ has_field "version" fs = true) ->
+  none_b (p_version (fold_left sel_step fs s)) = false.
+Proof.
+  induction fs as [|f fs IH]; intros s H; cbn [fold_left].
+  - destruct H as [H|H]; [exact H|discriminate].
+  - apply IH. destruct H as [H|H]; [left; apply sel_step_version_mono; exact H|].
+    unfold has_field in H. cbn [existsb] in H. apply orb_true_iff in H as [H|H]; [left|right; exact H].
+    destruct f as [n v]. cbn [fst] in H. apply String.eqb_eq in H; subst n. unfold sel_step.
+    cbn [String.eqb Ascii.eqb Bool.eqb andb].
+    destruct (p_version s) eqn:E; [rewrite E|]; reflexivity.
+Qed.
+
+Lemma fold_harmless bl : forall s (hn hv : bool),
+  (hn = true -> none_b (p_name s) = false) -> (hv = true -> none_b (p_version s) = false) ->
+  forallb (fun l => negb (startswith (lower l) "requires-dist:")
+                    && (hn || negb (startswith (lower l) "name:"))
+                    && (hv || negb (startswith (lower l) "version:"))) bl = true ->
+  fold_left p_step bl s = s.
+Proof.
+  induction bl as [|l bl IH]; intros s hn hv Hn Hv H; [reflexivity|].
+  cbn [forallb] in H. apply andb_true_iff in H as [Hl H].
+  apply andb_true_iff in Hl as [Hl H3]. apply andb_true_iff in Hl as [H1 H2].
+  apply negb_true_iff in H1. cbn [fold_left].
+  rewrite (p_step_harmless s l H1).
+  - apply (IH s hn hv Hn Hv H).
+  - destruct hn; [left; apply Hn; reflexivity|right; apply negb_true_iff; exact H2].
+  - destruct hv; [left; apply Hv; reflexivity|right; apply negb_true_iff; exact H3].
+Qed.
+
+
+(* the unguarded statement (FALSE of the code: see headers_refuted_body) *)
 Definition C11_headers_full_statement : Prop :=
   forall t, parse_flat t = select_fields (rfc822_fields t).
 
-(* proved part: inside the three decidable guards, for ALL texts.  Missing w.r.t. the full
-   statement: texts whose body has Name:/Version:/Requires-Dist:-looking lines, folded
-   Name/Version/Requires-Dist headers, ':' inside a Name/Version value. *)
+(* proved part, for ALL texts with a harmless body.  Missing w.r.t. the full statement: texts
+   whose body has a Requires-Dist:-looking line (or a Name:/Version:-looking one while the header
+   block declares none) - the code deliberately keeps reading after a blank line. *)
 Theorem headers_partial : forall t,
-  no_headerlike_body t = true -> no_folded t = true -> single_colon_nv t = true ->
-  parse_flat t = select_fields (rfc822_fields t).
+  body_harmless t = true -> parse_flat t = select_fields (rfc822_fields t).
 Proof.
-  intros t Hb Hf Hc.
-  unfold parse_flat, select_fields, rfc822_fields, parse_loop. f_equal.
+  intros t Hb.
+  unfold parse_flat, select_fields, parse_loop. f_equal.
   rewrite line_sep_pinned. fold (text_lines t).
-  unfold no_headerlike_body, body_lines in Hb. unfold no_folded, header_lines in Hf.
-  unfold single_colon_nv, header_lines in Hc. unfold header_lines.
-  destruct (span_hdr_spec (text_lines t)) as [E Hh].
-  rewrite E at 1. rewrite fold_left_app.
-  rewrite (fold_not_prefix _ _ Hb).
-  apply (main_hdr _ None p_init); try assumption; reflexivity.
+  unfold body_harmless, body_lines in Hb.
+  destruct (span_hdr_spec (text_lines t)) as (E & Hh & Hhead).
+  rewrite E at 1. rewrite (unfold_lines_app _ _ Hhead), fold_left_app.
+  assert (M : fold_left p_step (unfold_lines (fst (span_hdr (text_lines t)))) p_init =
+              fold_left sel_step (rfc822_fields t) p_init).
+  { unfold rfc822_fields, header_lines. apply hdr_block; [reflexivity|exact Hh]. }
+  rewrite M.
+  apply (fold_harmless _ _ (has_field "name" (rfc822_fields t)) (has_field "version" (rfc822_fields t))).
+  - intros H. apply fold_sel_name. right. exact H.
+  - intros H. apply fold_sel_version. right. exact H.
+  - exact Hb.
 Qed.
 
-(* the guards are satisfiable by a non-trivial text (CRLF, mixed case, folded License, body) *)
+(* non-trivial instance: CRLF, mixed case, folded License AND folded Requires-Dist, ':' in the
+   Name-free values, Version:/Name:-looking body lines *)
 Definition ex_text : string :=
   "Metadata-Version: 2.1" ++ String cr (String nl "") ++ "NAME: demo" ++ String nl "" ++
   "License: MIT" ++ String nl "" ++ "  continued: here" ++ String nl "" ++
   "Version: 1.0" ++ String cr (String nl "") ++
-  "Requires-Dist: requests[security] (>=2.0) ; extra == 'net'" ++ String nl "" ++
+  "Requires-Dist: requests[security]" ++ String cr (String nl "") ++ "  (>=2.0) ; extra == 'net'" ++ String nl "" ++
   "requires-dist: pkg @ https://example.org/p:8080/pkg.whl" ++ String nl "" ++ String nl "" ++
-  "Description: with a colon" ++ String nl "".
+  "Version: 0.9 was the first release" ++ String nl "" ++ "    Name: indented" ++ String nl "".
 Example headers_partial_nonvacuous :
-  no_headerlike_body ex_text = true /\ no_folded ex_text = true /\ single_colon_nv ex_text = true /\
+  body_harmless ex_text = true /\
   parse_flat ex_text = FlatOk "demo" (Some "1.0")
-    ["requests[security] (>=2.0) ; extra == 'net'"; "pkg @ https://example.org/p:8080/pkg.whl"].
+    ["requests[security]  (>=2.0) ; extra == 'net'"; "pkg @ https://example.org/p:8080/pkg.whl"].
 Proof. vm_compute. repeat split. Qed.
 
-(* refutations of the full statement: concrete METADATA texts (replayed on /repo by T2/known findings) *)
 Definition wit_body : string :=
   "Name: a" ++ String nl "" ++ "Version: 1" ++ String nl "" ++ String nl "" ++
   "Requires-Dist: evil" ++ String nl "".
@@ -352,43 +526,49 @@ Definition wit_folded : string :=
 Definition wit_colon : string :=
   "Name: a:b" ++ String nl "" ++ "Version: 1" ++ String nl "".
 
+(* still refuted (known finding C11-body-requires-dist; the suite's METADATA-extra-space fixture
+   requires a Requires-Dist after a blank line to be read) *)
 Theorem headers_refuted_body :
   parse_flat wit_body = FlatOk "a" (Some "1") ["evil"] /\
   select_fields (rfc822_fields wit_body) = FlatOk "a" (Some "1") [].
-Proof. vm_compute. split; reflexivity. Qed.
-Theorem headers_refuted_folded :
-  parse_flat wit_folded = FlatOk "a" (Some "1") ["bar"] /\
-  select_fields (rfc822_fields wit_folded) = FlatOk "a" (Some "1") ["bar  >=1.0"].
-Proof. vm_compute. split; reflexivity. Qed.
-Theorem headers_refuted_colon :
-  parse_flat wit_colon = FlatOk "a" (Some "1") [] /\
-  select_fields (rfc822_fields wit_colon) = FlatOk "a:b" (Some "1") [].
 Proof. vm_compute. split; reflexivity. Qed.
 Corollary headers_full_statement_false : ~ C11_headers_full_statement.
 Proof.
   intros H. specialize (H wit_body). destruct headers_refuted_body as [A B].
   rewrite A, B in H. discriminate.
 Qed.
+(* the former witnesses of the folded-header and colon findings are now read as declared *)
+Theorem headers_folded_and_colon_read :
+  parse_flat wit_folded = FlatOk "a" (Some "1") ["bar  >=1.0"] /\
+  parse_flat wit_folded = select_fields (rfc822_fields wit_folded) /\
+  parse_flat wit_colon = FlatOk "a:b" (Some "1") [] /\
+  parse_flat wit_colon = select_fields (rfc822_fields wit_colon).
+Proof. vm_compute. repeat split. Qed.
 
 (* ------------------------------------------------------------------------------------ *)
 (* E. choosing the dist-info entry *)
 
-(* T1 obligation: the regex source texts are the two the string predicates were written for *)
-Lemma regexes_pinned : c11_regexes = [(regex_own_text, true); (regex_any_text, false)].
+(* T1 obligation: the regex source texts are the three the string predicates were written for *)
+Lemma regexes_pinned :
+  c11_regexes = [(regex_root_text, true); (regex_own_text, true); (regex_any_text, false)].
 Proof. reflexivity. Qed.
 
-Definition find2 (pat : list pitem) (l : list string) : find_res :=
-  match List.find (own_match pat) l with
+Definition find3 (p : string) (l : list string) : find_res :=
+  match List.find (root_match p) l with
   | Some x => Found x
-  | None => match List.find any_match l with Some x => Found x | None => NotFound end
+  | None =>
+    match List.find (own_match p) l with
+    | Some x => Found x
+    | None => match List.find any_match l with Some x => Found x | None => NotFound end
+    end
   end.
-Lemma find_dist_info_eq p l :
-  find_dist_info p l = match pat_of_project p with Some pat => find2 pat l | None => RegexUnmodelled end.
+Lemma find_dist_info_eq p l : find_dist_info p l = find3 p l.
 Proof.
   unfold find_dist_info. rewrite regexes_pinned. cbn [find_passes interp_regex].
-  rewrite !String.eqb_refl. destruct (pat_of_project p); reflexivity.
+  rewrite !String.eqb_refl.
+  assert (E : String.eqb regex_own_text regex_root_text = false) by reflexivity. rewrite E.
+  reflexivity.
 Qed.
-
 Lemma find_first {A} (f : A -> bool) l x :
   List.find f l = Some x <->
   exists l1 l2, l = (l1 ++ x :: l2)%list /\ f x = true /\ forall y, In y l1 -> f y = false.
@@ -418,80 +598,102 @@ Proof.
     + intros y Hyin. apply Hy. right. exact Hyin.
 Qed.
 
-(* the wheel's own entry matches its project regex *)
-Lemma name_char_not_meta c : name_char c = true -> mem_ascii c regex_meta = false.
-Proof. destruct c as [[] [] [] [] [] [] [] []]; cbn; intros H; try discriminate H; reflexivity. Qed.
-Lemma name_char_not_cont c : name_char c = true -> is_contb c = false.
-Proof. destruct c as [[] [] [] [] [] [] [] []]; cbn; intros H; try discriminate H; reflexivity. Qed.
-Lemma name_char_not_nl c : name_char c = true -> Ascii.eqb c nl = false.
-Proof. destruct c as [[] [] [] [] [] [] [] []]; cbn; intros H; try discriminate H; reflexivity. Qed.
 
-Lemma skip_cont_id s : head_is_cont s = false -> skip_cont s = s.
-Proof. destruct s as [|c s]; [reflexivity|]. cbn. intros ->. reflexivity. Qed.
-
-Lemma match_self p : all_chars name_char p = true ->
-  exists pat, pat_of_project p = Some pat /\
-              forall rest, head_is_cont rest = false -> match_name pat (p ++ rest) = Some rest.
+Lemma strip_prefix_app p r : strip_prefix p (p ++ r) = Some r.
+Proof. induction p as [|c p IH]; [reflexivity|]. cbn. rewrite Ascii.eqb_refl. exact IH. Qed.
+Lemma strip_prefix_spec p : forall s r, strip_prefix p s = Some r -> s = p ++ r.
 Proof.
-  induction p as [|c p IH]; intros H.
-  - exists []. split; [reflexivity|]. intros rest _. reflexivity.
-  - cbn [all_chars] in H. apply andb_true_iff in H as [Hc Hp].
-    destruct (IH Hp) as (pat & Epat & Hm).
-    cbn [pat_of_project]. rewrite (name_char_not_meta c Hc), Epat.
-    eexists. split; [reflexivity|]. intros rest Hr. cbn [append].
-    destruct (Ascii.eqb c ".") eqn:Edot; cbn [match_name].
-    + rewrite (name_char_not_nl c Hc). rewrite skip_cont_id; [apply Hm; exact Hr|].
-      destruct p as [|d p]; [exact Hr|]. cbn [append head_is_cont].
-      cbn [all_chars] in Hp. apply andb_true_iff in Hp as [Hd _]. apply name_char_not_cont. exact Hd.
-    + rewrite Ascii.eqb_refl. apply Hm. exact Hr.
+  induction p as [|c p IH]; intros s r; cbn [strip_prefix append].
+  - intros H; inversion H; reflexivity.
+  - destruct s as [|d s]; [discriminate|]. destruct (Ascii.eqb d c) eqn:E; [|discriminate].
+    apply Ascii.eqb_eq in E; subst. intros H. rewrite (IH s r H). reflexivity.
 Qed.
 
-Lemma mid_suffix_own v : forall started,
-  no_newline v = true -> (started = true \/ v <> "") -> mid_suffix (v ++ dsuf) started = true.
+Lemma root_suffix_unfold s started :
+  root_suffix s started =
+  (started && (String.eqb s dsuf || String.eqb s (dsuf ++ String nl "")))
+  || match s with
+     | EmptyString => false
+     | String c s' => if Ascii.eqb c "/"%char then false else root_suffix s' true
+     end.
+Proof. destruct s; reflexivity. Qed.
+
+Definition tail_ok_s (tail : string) : Prop := tail = "" \/ tail = String nl "".
+
+Lemma root_suffix_intro mid : forall started tail,
+  no_slash mid = true -> (started = true \/ mid <> "") -> tail_ok_s tail ->
+  root_suffix (mid ++ dsuf ++ tail) started = true.
 Proof.
-  induction v as [|c v IH]; intros started Hn Hs.
-  - destruct Hs as [->|Hs]; [reflexivity|contradiction].
-  - cbn [append mid_suffix]. unfold no_newline in Hn. cbn [all_chars] in Hn.
+  induction mid as [|c mid IH]; intros started tail Hn Hs Ht.
+  - destruct Hs as [->|Hs]; [|contradiction]. cbn [append]. rewrite root_suffix_unfold.
+    destruct Ht as [->| ->].
+    + rewrite app_nil_r_s, String.eqb_refl. reflexivity.
+    + rewrite String.eqb_refl, orb_true_r. reflexivity.
+  - cbn [append]. rewrite root_suffix_unfold. unfold no_slash in Hn. cbn [all_chars] in Hn.
     apply andb_true_iff in Hn as [Hc Hn]. apply negb_true_iff in Hc. rewrite Hc.
-    rewrite (IH true Hn (or_introl eq_refl)). apply orb_true_r.
+    rewrite (IH true tail Hn (or_introl eq_refl) Ht). apply orb_true_r.
 Qed.
 
-Definition own_match_p (p e : string) : bool :=
-  match pat_of_project p with Some pat => own_match pat e | None => false end.
-
-Lemma own_entry_matches p v :
-  conformant_name p = true -> v <> "" -> no_newline v = true ->
-  exists pat, pat_of_project p = Some pat /\ own_match pat (own_entry p v) = true.
+Lemma root_suffix_elim s : forall started, root_suffix s started = true ->
+  exists mid tail, s = mid ++ dsuf ++ tail /\ (started = true \/ mid <> "") /\
+                   no_slash mid = true /\ tail_ok_s tail.
 Proof.
-  intros Hp Hv Hn. unfold conformant_name in Hp. destruct p as [|c p]; [discriminate|].
-  destruct (match_self _ Hp) as (pat & Epat & Hm). exists pat. split; [exact Epat|].
-  unfold own_match, tail_match, own_entry.
-  change (String c p ++ "-" ++ v ++ ".dist-info/METADATA") with (String c p ++ String "-" (v ++ dsuf)).
-  rewrite Hm by reflexivity. rewrite Ascii.eqb_refl.
-  rewrite (mid_suffix_own v false Hn (or_intror Hv)). reflexivity.
+  induction s as [|c s IH]; intros started; rewrite root_suffix_unfold; intros H;
+  apply orb_true_iff in H as [H|H]; try discriminate.
+  - apply andb_true_iff in H as [_ H]. apply orb_true_iff in H as [H|H]; apply String.eqb_eq in H; discriminate.
+  - apply andb_true_iff in H as [Hs H]. exists "". apply orb_true_iff in H as [H|H]; apply String.eqb_eq in H.
+    + exists "". rewrite H. repeat split; [left; exact Hs|left; reflexivity].
+    + exists (String nl ""). rewrite H. repeat split; [left; exact Hs|right; reflexivity].
+  - destruct (Ascii.eqb c "/"%char) eqn:Ec; [discriminate|].
+    destruct (IH true H) as (mid & tail & -> & _ & Hn & Ht).
+    exists (String c mid), tail. repeat split; [right; discriminate| |exact Ht].
+    unfold no_slash in *. cbn [all_chars]. rewrite Ec, Hn. reflexivity.
 Qed.
 
-(* exact guard: the own entry is chosen iff no member AFTER its last occurrence in the archive
-   matches the project regex (the name list is searched in reverse archive order) *)
+(* what `^{project}-[^/]+\.dist-info/METADATA$` accepts, as a statement about the member name *)
+Theorem root_match_spec p e :
+  root_match p e = true <->
+  exists mid tail, e = p ++ "-" ++ mid ++ dsuf ++ tail /\ mid <> "" /\ no_slash mid = true /\ tail_ok_s tail.
+Proof.
+  unfold root_match. split.
+  - destruct (strip_prefix p e) as [[|c r]|] eqn:S; try discriminate. intros H.
+    apply andb_true_iff in H as [Hc H]. apply Ascii.eqb_eq in Hc; subst c.
+    apply strip_prefix_spec in S. destruct (root_suffix_elim r false H) as (mid & tail & -> & Hs & Hn & Ht).
+    exists mid, tail. repeat split; try assumption. destruct Hs as [Hs|Hs]; [discriminate|exact Hs].
+  - intros (mid & tail & -> & Hm & Hn & Ht). rewrite strip_prefix_app. cbn [append]. rewrite Ascii.eqb_refl.
+    apply root_suffix_intro; [exact Hn|right; exact Hm|exact Ht].
+Qed.
+
+Lemma own_entry_root p v : v <> "" -> no_slash v = true -> root_match p (own_entry p v) = true.
+Proof.
+  intros Hv Hn. apply root_match_spec. exists v, "". unfold own_entry.
+  change ".dist-info/METADATA" with dsuf. rewrite app_nil_r_s. repeat split; [exact Hv|exact Hn|left; reflexivity].
+Qed.
+
+(* exact guard: the own entry is chosen iff no member AFTER its last occurrence in the archive is
+   another root-level `<project>-*.dist-info/METADATA` (the name list is searched in reverse) *)
 Theorem dist_info_own_exact p v names :
-  conformant_name p = true -> v <> "" -> no_newline v = true ->
+  v <> "" -> no_slash v = true ->
   (find_dist_info p (rev names) = Found (own_entry p v) <->
    exists before after, names = (before ++ own_entry p v :: after)%list /\
-                        forall e, In e after -> own_match_p p e = false).
+                        forall e, In e after -> root_match p e = false).
 Proof.
-  intros Hp Hv Hn. destruct (own_entry_matches p v Hp Hv Hn) as (pat & Epat & Hown).
-  rewrite find_dist_info_eq. unfold own_match_p. rewrite Epat. unfold find2. split.
-  - destruct (List.find (own_match pat) (rev names)) as [x|] eqn:F.
+  intros Hv Hn. pose proof (own_entry_root p v Hv Hn) as Hown.
+  rewrite find_dist_info_eq. unfold find3. split.
+  - destruct (List.find (root_match p) (rev names)) as [x|] eqn:F.
     + intros H; inversion H; subst x.
       apply find_first in F as (l1 & l2 & E & _ & Hl).
       exists (rev l2), (rev l1). split.
       * rewrite <- (rev_involutive names), E, rev_app_distr. cbn [rev]. rewrite <- app_assoc. reflexivity.
       * intros e He. apply Hl. apply in_rev in He. try rewrite rev_involutive in He. exact He.
-    + destruct (List.find any_match (rev names)) as [x|] eqn:F2; [|discriminate].
-      intros H; inversion H; subst x. apply List.find_some in F2 as [Hin _].
-      rewrite (find_none_all _ _ F _ Hin) in Hown. discriminate.
+    + assert (Hno : forall x, In x (rev names) -> x = own_entry p v -> False).
+      { intros x Hin ->. rewrite (find_none_all _ _ F _ Hin) in Hown. discriminate. }
+      destruct (List.find (own_match p) (rev names)) as [x|] eqn:F2.
+      * intros H; inversion H; subst x. apply List.find_some in F2 as [Hin _]. exfalso. eapply Hno; eauto.
+      * destruct (List.find any_match (rev names)) as [x|] eqn:F3; [|discriminate].
+        intros H; inversion H; subst x. apply List.find_some in F3 as [Hin _]. exfalso. eapply Hno; eauto.
   - intros (before & after & -> & Ha).
-    assert (F : List.find (own_match pat) (rev (before ++ own_entry p v :: after)) = Some (own_entry p v)).
+    assert (F : List.find (root_match p) (rev (before ++ own_entry p v :: after)) = Some (own_entry p v)).
     { apply find_first. exists (rev after), (rev before). repeat split.
       - rewrite rev_app_distr. cbn [rev]. rewrite <- app_assoc. reflexivity.
       - exact Hown.
@@ -499,71 +701,48 @@ Proof.
     rewrite F. reflexivity.
 Qed.
 
-(* spec-conformant wheel: its own dist-info is there and no other member looks like a dist-info
-   of this project -> chosen whatever else is vendored, wherever it sits in the archive *)
+(* spec-conformant wheel (exactly one root-level dist-info directory of the project): its METADATA
+   is chosen whatever else is vendored anywhere below the root, wherever it sits in the archive *)
 Theorem dist_info_own p v names :
-  conformant_name p = true -> v <> "" -> no_newline v = true ->
+  v <> "" -> no_slash v = true ->
   In (own_entry p v) names ->
-  (forall e, In e names -> e <> own_entry p v -> own_match_p p e = false) ->
+  (forall e, In e names -> e <> own_entry p v -> root_match p e = false) ->
   find_dist_info p (rev names) = Found (own_entry p v).
 Proof.
-  intros Hp Hv Hn Hin Hoth. destruct (own_entry_matches p v Hp Hv Hn) as (pat & Epat & Hown).
-  rewrite find_dist_info_eq, Epat. unfold find2.
-  unfold own_match_p in Hoth. rewrite Epat in Hoth.
-  rewrite (find_unique (own_match pat) (rev names) (own_entry p v)); [reflexivity| |exact Hown|].
+  intros Hv Hn Hin Hoth. pose proof (own_entry_root p v Hv Hn) as Hown.
+  rewrite find_dist_info_eq. unfold find3.
+  rewrite (find_unique (root_match p) (rev names) (own_entry p v)); [reflexivity| |exact Hown|].
   - apply in_rev in Hin. exact Hin.
   - intros y Hy. apply Hoth. apply in_rev in Hy. try rewrite rev_involutive in Hy. exact Hy.
 Qed.
 
-(* a syntactic sufficient condition, for project names without '.':
-   no other member starts with "<project>-" or contains "/<project>-" *)
-Definition plain_char (c : ascii) : bool := is_alpha_ascii c || is_digit c || Ascii.eqb c "_".
-Lemma plain_char_facts c : plain_char c = true ->
-  name_char c = true /\ Ascii.eqb c "." = false.
-Proof. destruct c as [[] [] [] [] [] [] [] []]; cbn; intros H; try discriminate H; split; reflexivity. Qed.
+(* anything stored below a directory is not root-level: vendored copies can never be preferred *)
+Lemma no_slash_app a b : no_slash (a ++ b) = no_slash a && no_slash b.
+Proof. unfold no_slash. induction a as [|c a IH]; cbn; [reflexivity|]. rewrite IH. now rewrite andb_assoc. Qed.
 
-Lemma pat_plain p : all_chars plain_char p = true ->
-  pat_of_project p = Some (map PLit (ascii_list p)).
-Proof.
-  induction p as [|c p IH]; [reflexivity|]. cbn [all_chars]. intros H.
-  apply andb_true_iff in H as [Hc Hp]. destruct (plain_char_facts c Hc) as [Hn Hd].
-  cbn [pat_of_project ascii_list map]. rewrite (name_char_not_meta c Hn), (IH Hp), Hd. reflexivity.
-Qed.
+Definition ex_names : list string :=
+  ["foo/__init__.py"; "foo/_vendor/six-1.16.0.dist-info/METADATA";
+   "foo/_vendor/foo-0.5.dist-info/METADATA"; "foo-1.0.dist-info/METADATA";
+   "foo-1.0.dist-info/RECORD"; "foo-1.0.data/purelib/bar-2.0.dist-info/METADATA"; "zzz-3.dist-info/METADATA"].
+Example dist_info_own_nonvacuous :
+  In (own_entry "foo" "1.0") ex_names /\
+  forallb (fun e => String.eqb e (own_entry "foo" "1.0") || negb (root_match "foo" e)) ex_names = true /\
+  find_dist_info "foo" (rev ex_names) = Found "foo-1.0.dist-info/METADATA".
+Proof. split; [cbn; auto 10|split; vm_compute; reflexivity]. Qed.
 
-Lemma match_lits cs : forall s r, match_name (map PLit cs) s = Some r -> s = of_ascii_list cs ++ r.
-Proof.
-  induction cs as [|c cs IH]; intros s r; cbn [map match_name of_ascii_list append].
-  - intros H; inversion H; reflexivity.
-  - destruct s as [|d s]; [discriminate|]. destruct (Ascii.eqb d c) eqn:E; [|discriminate].
-    apply Ascii.eqb_eq in E; subst. intros H. rewrite (IH s r H). reflexivity.
-Qed.
-Lemma of_ascii_list_id p : of_ascii_list (ascii_list p) = p.
-Proof. induction p as [|c p IH]; [reflexivity|]. cbn. now rewrite IH. Qed.
+(* the former witnesses of C11-vendored-same-project and C11-data-dir-dist-info now read the own entry *)
+Definition wit_names_same : list string :=
+  ["vend/__init__.py"; "vend-1.0.dist-info/METADATA"; "vend-1.0.dist-info/RECORD";
+   "vend/_vendor/vend-0.5.dist-info/METADATA"].
+Definition wit_names_data : list string :=
+  ["foo/__init__.py"; "foo-1.0.dist-info/METADATA"; "foo-1.0.dist-info/RECORD";
+   "foo-1.0.data/purelib/bar-2.0.dist-info/METADATA"].
+Theorem dist_info_vendored_read_own :
+  find_dist_info "vend" (rev wit_names_same) = Found (own_entry "vend" "1.0") /\
+  find_dist_info "foo" (rev wit_names_data) = Found (own_entry "foo" "1.0").
+Proof. split; vm_compute; reflexivity. Qed.
 
-Lemma prefixb_app x y : prefixb x (x ++ y) = true.
-Proof. induction x as [|c x IH]; [destruct y; reflexivity|]. cbn. rewrite Ascii.eqb_refl. exact IH. Qed.
-
-Lemma tail_match_prefix p s :
-  tail_match (map PLit (ascii_list p)) s = true -> prefixb (p ++ "-") s = true.
-Proof.
-  unfold tail_match. destruct (match_name _ s) as [[|c r]|] eqn:M; try discriminate.
-  intros H. apply andb_true_iff in H as [Hc _]. apply Ascii.eqb_eq in Hc; subst c.
-  apply match_lits in M. rewrite of_ascii_list_id in M. subst s.
-  change (String "-" r) with ("-" ++ r). rewrite <- app_assoc_s. apply prefixb_app.
-Qed.
-
-Lemma own_scan_contains p s : forall started,
-  own_scan (map PLit (ascii_list p)) s started = true -> containsb ("/" ++ p ++ "-") s = true.
-Proof.
-  induction s as [|c s IH]; intros started; cbn [own_scan]; [discriminate|].
-  destruct (Ascii.eqb c nl); [discriminate|]. intros H. apply orb_true_iff in H as [H|H].
-  - apply andb_true_iff in H as [H Ht]. apply andb_true_iff in H as [Hc _].
-    apply Ascii.eqb_eq in Hc; subst c. cbn [containsb append prefixb]. rewrite Ascii.eqb_refl.
-    cbn [andb]. rewrite (tail_match_prefix p s Ht). reflexivity.
-  - cbn [containsb]. rewrite (IH true H). apply orb_true_r.
-Qed.
-
-(* whatever matches either regex contains the text ".dist-info/METADATA" *)
+(* whatever matches any of the regexes contains the text ".dist-info/METADATA" *)
 Lemma containsb_app_l sub x r : containsb sub r = true -> containsb sub (x ++ r) = true.
 Proof.
   intros H. induction x as [|c x IH]; [exact H|]. cbn [append containsb]. rewrite IH. apply orb_true_r.
@@ -589,31 +768,29 @@ Proof.
   - destruct (Ascii.eqb c nl); [discriminate|]. cbn [containsb]. rewrite (IH true H). apply orb_true_r.
 Qed.
 
-Lemma skip_cont_suffix s : exists x, s = x ++ skip_cont s.
+Lemma root_suffix_contains s : forall started, root_suffix s started = true -> containsb dsuf s = true.
 Proof.
-  induction s as [|c s [x IH]]; [exists ""; reflexivity|]. cbn [skip_cont].
-  destruct (is_contb c); [|exists ""; reflexivity].
-  exists (String c x). cbn [append]. rewrite <- IH. reflexivity.
+  induction s as [|c s IH]; intros started; cbn [root_suffix]; intros H; apply orb_true_iff in H as [H|H].
+  - apply andb_true_iff in H as [_ H]. apply orb_true_iff in H as [H|H]; apply String.eqb_eq in H; discriminate.
+  - discriminate.
+  - apply andb_true_iff in H as [_ H]. apply orb_true_iff in H as [H|H]; apply String.eqb_eq in H; rewrite H; reflexivity.
+  - destruct (Ascii.eqb c "/"%char); [discriminate|]. cbn [containsb]. rewrite (IH true H). apply orb_true_r.
 Qed.
-Lemma match_name_suffix pat : forall s r, match_name pat s = Some r -> exists x, s = x ++ r.
+Lemma root_match_contains p s : root_match p s = true -> containsb dsuf s = true.
 Proof.
-  induction pat as [|it pat IH]; intros s r; cbn [match_name].
-  - intros H; inversion H. exists "". reflexivity.
-  - destruct s as [|c s]; [discriminate|]. destruct it as [d|].
-    + destruct (Ascii.eqb c d); [|discriminate]. intros H. destruct (IH _ _ H) as [x ->].
-      exists (String c x). reflexivity.
-    + destruct (Ascii.eqb c nl); [discriminate|]. intros H. destruct (IH _ _ H) as [x E].
-      destruct (skip_cont_suffix s) as [y Ey]. exists (String c (y ++ x)).
-      cbn [append]. rewrite app_assoc_s, <- E, <- Ey. reflexivity.
-Qed.
-Lemma tail_match_contains pat s : tail_match pat s = true -> containsb dsuf s = true.
-Proof.
-  unfold tail_match. destruct (match_name pat s) as [[|c r]|] eqn:M; try discriminate.
-  intros H. apply andb_true_iff in H as [_ H]. apply mid_suffix_contains in H.
-  destruct (match_name_suffix _ _ _ M) as [x ->].
+  unfold root_match. destruct (strip_prefix p s) as [[|c r]|] eqn:M; try discriminate.
+  intros H. apply andb_true_iff in H as [_ H]. apply root_suffix_contains in H.
+  apply strip_prefix_spec in M. subst s.
   apply containsb_app_l. cbn [containsb]. rewrite H. apply orb_true_r.
 Qed.
-Lemma own_scan_contains_dsuf pat s : forall started, own_scan pat s started = true -> containsb dsuf s = true.
+Lemma tail_match_contains p s : tail_match p s = true -> containsb dsuf s = true.
+Proof.
+  unfold tail_match. destruct (strip_prefix p s) as [[|c r]|] eqn:M; try discriminate.
+  intros H. apply andb_true_iff in H as [_ H]. apply mid_suffix_contains in H.
+  apply strip_prefix_spec in M. subst s.
+  apply containsb_app_l. cbn [containsb]. rewrite H. apply orb_true_r.
+Qed.
+Lemma own_scan_contains_dsuf p s : forall started, own_scan p s started = true -> containsb dsuf s = true.
 Proof.
   induction s as [|c s IH]; intros started; cbn [own_scan]; [discriminate|].
   destruct (Ascii.eqb c nl); [discriminate|]. intros H. apply orb_true_iff in H as [H|H].
@@ -621,88 +798,34 @@ Proof.
     cbn [containsb]. rewrite H. apply orb_true_r.
   - cbn [containsb]. rewrite (IH true H). apply orb_true_r.
 Qed.
-Lemma own_match_contains pat s : own_match pat s = true -> containsb dsuf s = true.
+Lemma own_match_contains p s : own_match p s = true -> containsb dsuf s = true.
 Proof.
   unfold own_match. intros H. apply orb_true_iff in H as [H|H];
   [apply tail_match_contains in H|apply own_scan_contains_dsuf in H]; exact H.
 Qed.
 
-(* every OTHER member either is no METADATA path at all, or sits in a directory that is not
-   named like this project *)
-Definition elsewhere (p e : string) : bool :=
-  negb (containsb dsuf e) || (negb (prefixb (p ++ "-") e) && negb (containsb ("/" ++ p ++ "-") e)).
-
-Theorem dist_info_vendored_elsewhere p v names :
-  p <> "" -> all_chars plain_char p = true -> v <> "" -> no_newline v = true ->
-  In (own_entry p v) names ->
-  (forall e, In e names -> e <> own_entry p v -> elsewhere p e = true) ->
-  find_dist_info p (rev names) = Found (own_entry p v).
-Proof.
-  intros Hne Hp Hv Hn Hin Hoth.
-  assert (Hc : conformant_name p = true).
-  { unfold conformant_name. destruct p as [|c p]; [contradiction|].
-    clear - Hp. revert Hp. generalize (String c p) as q.
-    induction q as [|d q IH]; [reflexivity|]. cbn [all_chars]. intros H.
-    apply andb_true_iff in H as [Hd Hq]. rewrite (proj1 (plain_char_facts d Hd)), (IH Hq). reflexivity. }
-  apply dist_info_own; try assumption.
-  intros e He Hne'. pose proof (Hoth e He Hne') as H. unfold elsewhere in H.
-  unfold own_match_p. rewrite (pat_plain p Hp).
-  destruct (own_match _ e) eqn:M; [|reflexivity]. exfalso.
-  apply orb_true_iff in H as [H|H].
-  - apply own_match_contains in M. rewrite M in H. discriminate.
-  - apply andb_true_iff in H as [H1 H2]. apply negb_true_iff in H1, H2.
-    unfold own_match in M. apply orb_true_iff in M as [T|S].
-    + apply tail_match_prefix in T. rewrite T in H1. discriminate.
-    + apply own_scan_contains in S. rewrite S in H2. discriminate.
-Qed.
-
-Definition ex_names : list string :=
-  ["foo/__init__.py"; "foo/_vendor/six-1.16.0.dist-info/METADATA";
-   "foo/_vendor/foobar-2.dist-info/METADATA"; "foo-1.0.dist-info/METADATA";
-   "foo-1.0.dist-info/RECORD"; "zzz-3.dist-info/METADATA"].
-Example dist_info_own_nonvacuous :
-  In (own_entry "foo" "1.0") ex_names /\
-  forallb (fun e => String.eqb e (own_entry "foo" "1.0") || elsewhere "foo" e) ex_names = true /\
-  find_dist_info "foo" (rev ex_names) = Found "foo-1.0.dist-info/METADATA".
-Proof. split; [cbn; auto 10|split; vm_compute; reflexivity]. Qed.
-
-(* the unguarded statement is false: (1) a vendored copy of the SAME project stored after the
-   own dist-info; (2) another project's dist-info under the wheel's own `.data/` directory *)
-Definition C11_dist_info_full_statement : Prop :=
-  forall p v names, conformant_name p = true -> v <> "" -> no_newline v = true ->
-    In (own_entry p v) names -> find_dist_info p (rev names) = Found (own_entry p v).
-Definition wit_names_same : list string :=
-  ["vend/__init__.py"; "vend-1.0.dist-info/METADATA"; "vend-1.0.dist-info/RECORD";
-   "vend/_vendor/vend-0.5.dist-info/METADATA"].
-Definition wit_names_data : list string :=
-  ["foo/__init__.py"; "foo-1.0.dist-info/METADATA"; "foo-1.0.dist-info/RECORD";
-   "foo-1.0.data/purelib/bar-2.0.dist-info/METADATA"].
-Theorem dist_info_own_refuted :
-  (In (own_entry "vend" "1.0") wit_names_same /\
-   find_dist_info "vend" (rev wit_names_same) = Found "vend/_vendor/vend-0.5.dist-info/METADATA") /\
-  (In (own_entry "foo" "1.0") wit_names_data /\
-   find_dist_info "foo" (rev wit_names_data) = Found "foo-1.0.data/purelib/bar-2.0.dist-info/METADATA").
-Proof. split; (split; [cbn; auto|vm_compute; reflexivity]). Qed.
-Corollary dist_info_full_statement_false : ~ C11_dist_info_full_statement.
-Proof.
-  intros H. destruct dist_info_own_refuted as [[Hin E] _].
-  rewrite (H "vend" "1.0" wit_names_same) in E; try reflexivity; try exact Hin; discriminate.
-Qed.
-
 (* ------------------------------------------------------------------------------------ *)
 (* F. unreadable wheels are errors; a distribution only ever comes from a declared METADATA *)
-
-(* the part of the file-name the model depends on is inside the modelled fragment *)
-Definition modelled (basename : string) : Prop :=
-  exists p pat, project_of basename = Some p /\ pat_of_project p = Some pat.
 
 Lemma namelist_reversed_pinned : c11_namelist_reversed = true.
 Proof. reflexivity. Qed.
 
-Lemma fetch_unfold basename es p pat :
-  project_of basename = Some p -> pat_of_project p = Some pat ->
+Lemma psplit_nonempty c s : exists h t, psplit c s = h :: t.
+Proof.
+  induction s as [|d s (h & t & IH)]; cbn [psplit]; [eauto|].
+  destruct (Ascii.eqb d c); [eauto|]. rewrite IH. eauto.
+Qed.
+(* the project name is always defined (first '-'-separated piece of the file name) *)
+Lemma project_of_total basename : exists p, project_of basename = Some p.
+Proof.
+  unfold project_of. change c11_project_idx with 0.
+  destruct (psplit_nonempty c11_project_sep basename) as (h & t & ->). exists h. reflexivity.
+Qed.
+
+Lemma fetch_unfold basename es p :
+  project_of basename = Some p ->
   fetch_from_wheel basename (Zip es) =
-  match find2 pat (rev (map fst es)) with
+  match find3 p (rev (map fst es)) with
   | Found entry => match read_last entry es with
                    | Some (Content text) => FetchFlat (parse_flat text)
                    | Some BadMember => FetchNone
@@ -712,21 +835,18 @@ Lemma fetch_unfold basename es p pat :
   | RegexUnmodelled => FetchUnmodelled
   end.
 Proof.
-  intros Hp Hpat. unfold fetch_from_wheel. rewrite Hp, namelist_reversed_pinned.
-  rewrite find_dist_info_eq, Hpat. reflexivity.
+  intros Hp. unfold fetch_from_wheel. rewrite Hp, namelist_reversed_pinned.
+  rewrite find_dist_info_eq. reflexivity.
 Qed.
 
-Lemma find2_not_unmodelled pat l : find2 pat l <> RegexUnmodelled.
+Lemma find3_none p l :
+  (forall n, In n l -> containsb dsuf n = false) -> find3 p l = NotFound.
 Proof.
-  unfold find2. destruct (List.find (own_match pat) l); [discriminate|].
-  destruct (List.find any_match l); discriminate.
-Qed.
-
-Lemma find2_none pat l :
-  (forall n, In n l -> containsb dsuf n = false) -> find2 pat l = NotFound.
-Proof.
-  intros H. unfold find2.
-  destruct (List.find (own_match pat) l) as [x|] eqn:F.
+  intros H. unfold find3.
+  destruct (List.find (root_match p) l) as [x|] eqn:F0.
+  { apply List.find_some in F0 as [Hin Hm]. apply root_match_contains in Hm.
+    rewrite (H x Hin) in Hm. discriminate. }
+  destruct (List.find (own_match p) l) as [x|] eqn:F.
   - apply List.find_some in F as [Hin Hm]. apply own_match_contains in Hm.
     rewrite (H x Hin) in Hm. discriminate.
   - destruct (List.find any_match l) as [x|] eqn:F2; [|reflexivity].
@@ -748,36 +868,35 @@ Inductive unreadable (basename : string) : archive -> Prop :=
       unreadable basename (Zip es).
 
 Theorem unreadable_is_error vok rok basename a :
-  modelled basename -> unreadable basename a ->
+  unreadable basename a ->
   extract_whl vok rok basename a = Err MetadataError \/
   extract_whl vok rok basename a = Err InvalidVersion.
 Proof.
-  intros (p & pat & Hp & Hpat) U. unfold extract_whl. destruct U as [|es Hn|es p' entry Hp' Hf Hr|es p' entry text v Hp' Hf Hr Hpf].
+  destruct (project_of_total basename) as [p Hp].
+  intros U. unfold extract_whl. destruct U as [|es Hn|es p' entry Hp' Hf Hr|es p' entry text v Hp' Hf Hr Hpf].
   - left. reflexivity.
-  - left. rewrite (fetch_unfold _ _ _ _ Hp Hpat).
-    rewrite (find2_none pat (rev (map fst es))); [reflexivity|].
+  - left. rewrite (fetch_unfold _ _ _ Hp).
+    rewrite (find3_none p (rev (map fst es))); [reflexivity|].
     intros n Hin. apply Hn. apply in_rev in Hin. exact Hin.
   - left. rewrite Hp in Hp'. inversion Hp'; subst p'.
-    rewrite find_dist_info_eq, Hpat in Hf.
-    rewrite (fetch_unfold _ _ _ _ Hp Hpat), Hf, Hr. reflexivity.
+    rewrite find_dist_info_eq in Hf.
+    rewrite (fetch_unfold _ _ _ Hp), Hf, Hr. reflexivity.
   - rewrite Hp in Hp'. inversion Hp'; subst p'.
-    rewrite find_dist_info_eq, Hpat in Hf.
-    rewrite (fetch_unfold _ _ _ _ Hp Hpat), Hf, Hr, Hpf. unfold outcome.
+    rewrite find_dist_info_eq in Hf.
+    rewrite (fetch_unfold _ _ _ Hp), Hf, Hr, Hpf. unfold outcome.
     destruct v as [v|]; [|left; reflexivity].
     destruct (vok v); [left|right]; reflexivity.
 Qed.
 
 Example unreadable_nonvacuous :
-  modelled "foo-1.0-py3-none-any.whl" /\
   unreadable "foo-1.0-py3-none-any.whl" (Zip [("foo/__init__.py", Content "x"); ("foo-1.0.dist-info/RECORD", Content "")]) /\
   unreadable "foo-1.0-py3-none-any.whl"
     (Zip [("foo-1.0.dist-info/METADATA", Content ("Version: 1.0" ++ String nl ("Requires-Dist: x" ++ String nl "")))]).
 Proof.
-  split; [exists "foo"; eexists; split; reflexivity|]. split.
+  split.
   - apply U_no_metadata. cbn [map fst In]. intros n [<-|[<-|[]]]; reflexivity.
   - eapply U_no_name; vm_compute; reflexivity.
 Qed.
-
 (* converse: a distribution is only ever produced from the text of a member the finder chose,
    with exactly the requirement texts post_reqs keeps; in particular an empty requirement list
    means the METADATA that was read declares none that survive *)
@@ -822,21 +941,14 @@ Proof.
       unfold noc in *. cbn [all_chars]. rewrite E. exact Hn.
 Qed.
 
-Lemma psplit_nonempty c s : exists h t, psplit c s = h :: t.
-Proof.
-  induction s as [|d s (h & t & IH)]; cbn [psplit]; [eauto|].
-  destruct (Ascii.eqb d c); [eauto|]. rewrite IH. eauto.
-Qed.
 
 Lemma apply_branch_ok s n w b :
   noc colon n = true -> (b = br_name \/ b = br_version \/ b = br_req) ->
   p_index_error (apply_branch s (n ++ String colon w) b) = p_index_error s.
 Proof.
-  intros Hn Hb. unfold apply_branch. destruct (psplit_nonempty colon w) as (h & t & E).
-  destruct Hb as [->|[->| ->]]; cbn [b_extr br_name br_version br_req run_extr b_target b_strip].
-  - rewrite psplit_app by exact Hn. rewrite E. reflexivity.
-  - rewrite psplit_app by exact Hn. rewrite E. reflexivity.
-  - rewrite ppartition_app by exact Hn. reflexivity.
+  intros Hn Hb. unfold apply_branch.
+  destruct Hb as [->|[->| ->]]; cbn [b_extr br_name br_version br_req run_extr b_target b_strip];
+  rewrite ppartition_app by exact Hn; reflexivity.
 Qed.
 
 Lemma p_step_no_index_error s l : p_index_error s = false -> p_index_error (p_step s l) = false.
@@ -860,7 +972,7 @@ Theorem parse_never_index_error t : parse_flat t <> FlatErr FlatIndexError.
 Proof.
   unfold parse_flat, finish.
   assert (H : p_index_error (parse_loop t) = false).
-  { unfold parse_loop. generalize (psplit c11_line_sep t) as ls.
+  { unfold parse_loop. generalize (unfold_lines (psplit c11_line_sep t)) as ls.
     assert (G : forall ls s, p_index_error s = false -> p_index_error (fold_left p_step ls s) = false).
     { induction ls as [|l ls IH]; intros s Hs; [exact Hs|]. cbn [fold_left]. apply IH.
       apply p_step_no_index_error. exact Hs. }
@@ -899,11 +1011,13 @@ Proof. vm_compute. reflexivity. Qed.
 Corollary reqs_full_statement_false : ~ C11_reqs_full_statement.
 Proof. intros H. pose proof (H ["# not a requirement"]) as E. vm_compute in E. discriminate. Qed.
 
+
 (* ------------------------------------------------------------------------------------ *)
 (* T1 obligations gathered: what the theorems above assume about the generated shapes *)
 Theorem source_shape_pinned :
   c11_branches = [br_name; br_version; br_req] /\ c11_line_sep = nl /\
-  c11_regexes = [(regex_own_text, true); (regex_any_text, false)] /\
+  c11_cont_chars = [" "%char; ascii_of_nat 9] /\ c11_unfold_rstrip = String cr "" /\
+  c11_regexes = [(regex_root_text, true); (regex_own_text, true); (regex_any_text, false)] /\
   c11_project_sep = "-"%char /\ c11_project_idx = 0 /\ c11_namelist_reversed = true /\
   c11_decode_args = ["utf-8"; "ignore"] /\ c11_fetch_handlers = ["zipfile.BadZipfile"] /\
   c11_whl_ext = ".whl" /\ c11_ext_lowered = true /\
@@ -915,29 +1029,30 @@ Proof. repeat split; reflexivity. Qed.
 
 Definition C11_wheel_full_statement : Prop :=
   forall vok rok basename p v es text,
-    project_of basename = Some p -> conformant_name p = true -> v <> "" -> no_newline v = true ->
+    project_of basename = Some p -> v <> "" -> no_slash v = true ->
     In (own_entry p v) (map fst es) -> read_last (own_entry p v) es = Some (Content text) ->
     extract_whl vok rok basename (Zip es) = outcome vok rok (select_fields (rfc822_fields text)).
 
 Theorem wheel_end_to_end_partial vok rok basename p v es text :
-  project_of basename = Some p -> conformant_name p = true -> v <> "" -> no_newline v = true ->
+  project_of basename = Some p -> v <> "" -> no_slash v = true ->
   In (own_entry p v) (map fst es) ->
-  (forall e, In e (map fst es) -> e <> own_entry p v -> own_match_p p e = false) ->
+  (forall e, In e (map fst es) -> e <> own_entry p v -> root_match p e = false) ->
   read_last (own_entry p v) es = Some (Content text) ->
-  no_headerlike_body text = true -> no_folded text = true -> single_colon_nv text = true ->
+  body_harmless text = true ->
   extract_whl vok rok basename (Zip es) = outcome vok rok (select_fields (rfc822_fields text)).
 Proof.
-  intros Hp Hc Hv Hn Hin Hoth Hr Gb Gf Gc.
+  intros Hp Hv Hn Hin Hoth Hr Gb.
   unfold extract_whl, fetch_from_wheel. rewrite Hp, namelist_reversed_pinned.
-  rewrite (dist_info_own p v (map fst es) Hc Hv Hn Hin Hoth), Hr.
-  rewrite (headers_partial text Gb Gf Gc). reflexivity.
+  rewrite (dist_info_own p v (map fst es) Hv Hn Hin Hoth), Hr.
+  rewrite (headers_partial text Gb). reflexivity.
 Qed.
 
 Example wheel_end_to_end_nonvacuous :
-  let es := [("demo/__init__.py", Content "x"); ("demo/_vendor/six-1.16.0.dist-info/METADATA", Content "Name: six");
-             ("demo-1.0.dist-info/METADATA", Content ex_text); ("demo-1.0.dist-info/RECORD", Content "")] in
+  let es := [("demo/__init__.py", Content "x"); ("demo/_vendor/demo-0.1.dist-info/METADATA", Content "Name: vendored");
+             ("demo-1.0.dist-info/METADATA", Content ex_text); ("demo-1.0.dist-info/RECORD", Content "");
+             ("demo-1.0.data/purelib/six-1.16.0.dist-info/METADATA", Content "Name: six")] in
   extract_whl (fun _ => true) (fun _ => true) "demo-1.0-py3-none-any.whl" (Zip es) =
-  Ok ("demo", Some "1.0", ["requests[security] (>=2.0) ; extra == 'net'"; "pkg @ https://example.org/p:8080/pkg.whl"]).
+  Ok ("demo", Some "1.0", ["requests[security]  (>=2.0) ; extra == 'net'"; "pkg @ https://example.org/p:8080/pkg.whl"]).
 Proof. vm_compute. reflexivity. Qed.
 
 (* ------------------------------------------------------------------------------------ *)
@@ -1101,7 +1216,7 @@ Theorem parse_flat_reqs_stripped t n v raw :
 Proof.
   unfold parse_flat, finish.
   assert (H : Forall (fun r => py_strip r = r) (p_reqs (parse_loop t))).
-  { unfold parse_loop. generalize (psplit c11_line_sep t) as ls.
+  { unfold parse_loop. generalize (unfold_lines (psplit c11_line_sep t)) as ls.
     assert (G : forall ls s, Forall (fun r => py_strip r = r) (p_reqs s) ->
                              Forall (fun r => py_strip r = r) (p_reqs (fold_left p_step ls s))).
     { induction ls as [|l ls IH]; intros s Hs; [exact Hs|]. cbn [fold_left]. apply IH, p_step_stripped, Hs. }
@@ -1123,112 +1238,6 @@ Proof.
   apply andb_true_iff in Hr as [Hb Hk]. rewrite Sr, String.eqb_refl, Hb, Hk. reflexivity.
 Qed.
 
-(* ------------------------------------------------------------------------------------ *)
-(* J. the sharper body guard *)
-
-Lemma p_step_harmless s l :
-  startswith (lower l) "requires-dist:" = false ->
-  (none_b (p_name s) = false \/ startswith (lower l) "name:" = false) ->
-  (none_b (p_version s) = false \/ startswith (lower l) "version:" = false) ->
-  p_step s l = s.
-Proof.
-  intros Hr Hn Hv. rewrite p_step_unfold, Hr. destruct (p_index_error s); [reflexivity|].
-  assert (E1 : none_b (p_name s) && startswith (lower l) "name:" = false)
-    by (destruct Hn as [-> | ->]; [reflexivity|apply andb_false_r]).
-  assert (E2 : none_b (p_version s) && startswith (lower l) "version:" = false)
-    by (destruct Hv as [-> | ->]; [reflexivity|apply andb_false_r]).
-  rewrite E1, E2. reflexivity.
-Qed.
-
-Lemma sel_step_name_mono s f : none_b (p_name s) = false -> none_b (p_name (sel_step s f)) = false.
-Proof.
-  destruct f as [n v], s as [pn pv pr pe]. unfold sel_step. cbn [p_name p_version p_reqs p_index_error].
-  intros H. destruct pn; [|discriminate].
-  destruct (String.eqb n "name"); [reflexivity|].
-  destruct (String.eqb n "version"); [destruct pv; reflexivity|].
-  destruct (String.eqb n "requires-dist"); reflexivity.
-Qed.
-Lemma sel_step_version_mono s f : none_b (p_version s) = false -> none_b (p_version (sel_step s f)) = false.
-Proof.
-  destruct f as [n v], s as [pn pv pr pe]. unfold sel_step. cbn [p_name p_version p_reqs p_index_error].
-  intros H. destruct pv; [|discriminate].
-  destruct (String.eqb n "name"); [destruct pn; reflexivity|].
-  destruct (String.eqb n "version"); [reflexivity|].
-  destruct (String.eqb n "requires-dist"); reflexivity.
-Qed.
-
-Lemma fold_sel_name fs : forall s,
-  (none_b (p_name s) = false \/ has_field "name" fs = true) ->
-  none_b (p_name (fold_left sel_step fs s)) = false.
-Proof.
-  induction fs as [|f fs IH]; intros s H; cbn [fold_left].
-  - destruct H as [H|H]; [exact H|discriminate].
-  - apply IH. destruct H as [H|H]; [left; apply sel_step_name_mono; exact H|].
-    unfold has_field in H. cbn [existsb] in H. apply orb_true_iff in H as [H|H]; [left|right; exact H].
-    destruct f as [n v]. cbn [fst] in H. unfold sel_step. rewrite H.
-    destruct (p_name s) eqn:E; [rewrite E|]; reflexivity.
-Qed.
-Lemma fold_sel_version fs : forall s,
-  (none_b (p_version s) = false \/ has_field "version" fs = true) ->
-  none_b (p_version (fold_left sel_step fs s)) = false.
-Proof.
-  induction fs as [|f fs IH]; intros s H; cbn [fold_left].
-  - destruct H as [H|H]; [exact H|discriminate].
-  - apply IH. destruct H as [H|H]; [left; apply sel_step_version_mono; exact H|].
-    unfold has_field in H. cbn [existsb] in H. apply orb_true_iff in H as [H|H]; [left|right; exact H].
-    destruct f as [n v]. cbn [fst] in H. apply String.eqb_eq in H; subst n. unfold sel_step.
-    cbn [String.eqb Ascii.eqb Bool.eqb andb].
-    destruct (p_version s) eqn:E; [rewrite E|]; reflexivity.
-Qed.
-
-Lemma fold_harmless bl : forall s (hn hv : bool),
-  (hn = true -> none_b (p_name s) = false) -> (hv = true -> none_b (p_version s) = false) ->
-  forallb (fun l => negb (startswith (lower l) "requires-dist:")
-                    && (hn || negb (startswith (lower l) "name:"))
-                    && (hv || negb (startswith (lower l) "version:"))) bl = true ->
-  fold_left p_step bl s = s.
-Proof.
-  induction bl as [|l bl IH]; intros s hn hv Hn Hv H; [reflexivity|].
-  cbn [forallb] in H. apply andb_true_iff in H as [Hl H].
-  apply andb_true_iff in Hl as [Hl H3]. apply andb_true_iff in Hl as [H1 H2].
-  apply negb_true_iff in H1. cbn [fold_left].
-  rewrite (p_step_harmless s l H1).
-  - apply (IH s hn hv Hn Hv H).
-  - destruct hn; [left; apply Hn; reflexivity|right; apply negb_true_iff; exact H2].
-  - destruct hv; [left; apply Hv; reflexivity|right; apply negb_true_iff; exact H3].
-Qed.
-
-(* stronger than headers_partial: bodies may contain Name:/Version:-looking lines *)
-Theorem headers_partial_sharp : forall t,
-  body_harmless t = true -> no_folded t = true -> single_colon_nv t = true ->
-  parse_flat t = select_fields (rfc822_fields t).
-Proof.
-  intros t Hb Hf Hc.
-  unfold parse_flat, select_fields, parse_loop. f_equal.
-  rewrite line_sep_pinned. fold (text_lines t).
-  unfold body_harmless, body_lines in Hb. unfold no_folded, header_lines in Hf.
-  unfold single_colon_nv, header_lines in Hc.
-  destruct (span_hdr_spec (text_lines t)) as [E Hh].
-  rewrite E at 1. rewrite fold_left_app.
-  assert (M : fold_left p_step (fst (span_hdr (text_lines t))) p_init =
-              fold_left sel_step (rfc822_fields t) p_init).
-  { unfold rfc822_fields, header_lines. apply (main_hdr _ None p_init); try assumption; reflexivity. }
-  rewrite M.
-  apply (fold_harmless _ _ (has_field "name" (rfc822_fields t)) (has_field "version" (rfc822_fields t))).
-  - intros H. apply fold_sel_name. right. exact H.
-  - intros H. apply fold_sel_version. right. exact H.
-  - exact Hb.
-Qed.
-
-Definition ex_text_sharp : string :=
-  "Name: demo" ++ String nl "" ++ "Version: 1.0" ++ String nl "" ++ "Requires-Dist: six" ++ String nl "" ++
-  String nl "" ++ "Changelog" ++ String nl "" ++ "Version: 0.9 was the first release" ++ String nl "" ++
-  "Name: the old name was demo2" ++ String nl "".
-Example headers_partial_sharp_nonvacuous :
-  no_headerlike_body ex_text_sharp = false /\ body_harmless ex_text_sharp = true /\
-  no_folded ex_text_sharp = true /\ single_colon_nv ex_text_sharp = true /\
-  parse_flat ex_text_sharp = FlatOk "demo" (Some "1.0") ["six"].
-Proof. vm_compute. repeat split. Qed.
 
 (* ------------------------------------------------------------------------------------ *)
 (* K. sanity of the specification: a METADATA written out from a list of fields is read back
@@ -1329,60 +1338,42 @@ Proof.
   rewrite (span_hdr_fields fs _ H). cbn [fst]. rewrite (fields_of_fields fs None H). reflexivity.
 Qed.
 
+
 (* L. ... and the code reads back exactly what was declared, whatever harmless body follows:
-   no hypothesis on the model's own guards is left, only on what the writer emitted *)
-Definition nv_colon_free (f : string * string) : bool :=
-  if String.eqb (lower (fst f)) "name" || String.eqb (lower (fst f)) "version" then negb (has_colon (snd f)) else true.
+   hypotheses only on what the writer emitted (folded values and ':' inside values are fine: the
+   value of a field may be any one-line text) *)
 Definition body_ok (fs : list (string * string)) (body : string) : bool :=
   forallb (fun l =>
     let ll := lower l in
     negb (startswith ll "requires-dist:")
     && (has_field "name" (map norm_field fs) || negb (startswith ll "name:"))
-    && (has_field "version" (map norm_field fs) || negb (startswith ll "version:"))) (text_lines body).
+    && (has_field "version" (map norm_field fs) || negb (startswith ll "version:")))
+    (unfold_lines ("" :: text_lines body)).
 
 Theorem rendered_metadata_read_back fs body :
-  forallb wf_field fs = true -> forallb nv_colon_free fs = true -> body_ok fs body = true ->
+  forallb wf_field fs = true -> body_ok fs body = true ->
   parse_flat (render fs body) = select_fields (map norm_field fs).
 Proof.
-  intros Hw Hc Hb. rewrite <- (spec_reads_rendered fs body Hw).
+  intros Hw Hb. rewrite <- (spec_reads_rendered fs body Hw).
   assert (Hl : forallb (noc nl) (map field_line fs) = true).
   { clear - Hw. induction fs as [|[n v] fs IH]; [reflexivity|]. cbn [forallb map] in *.
     apply andb_true_iff in Hw as [Hf H]. rewrite (proj1 (wf_field_line n v Hf)), (IH H). reflexivity. }
   assert (Hspan : span_hdr (text_lines (render fs body)) = (map field_line fs, "" :: text_lines body)).
   { unfold render. rewrite (text_lines_render _ _ Hl).
     change (text_lines (String nl body)) with ("" :: text_lines body). apply span_hdr_fields. exact Hw. }
-  apply headers_partial_sharp.
-  - unfold body_harmless, body_lines. rewrite Hspan. cbn [snd forallb].
-    rewrite (spec_reads_rendered fs body Hw).
-    assert (E : forall b1 b2 : bool, negb false && (b1 || negb false) && (b2 || negb false) = true)
-      by (intros [] []; reflexivity).
-    change (startswith (lower "") "requires-dist:") with false.
-    change (startswith (lower "") "name:") with false.
-    change (startswith (lower "") "version:") with false.
-    rewrite E. exact Hb.
-  - unfold no_folded, header_lines. rewrite Hspan. cbn [fst].
-    clear - Hw. generalize false as b. induction fs as [|[n v] fs IH]; intros b; [reflexivity|].
-    cbn [forallb map no_folded_in] in *. apply andb_true_iff in Hw as [Hf H].
-    destruct (wf_field_line n v Hf) as (_ & Hch & Hcont & Hsplit & _ & _).
-    rewrite Hch, Hcont, Hsplit. apply IH. exact H.
-  - unfold single_colon_nv, header_lines. rewrite Hspan. cbn [fst].
-    clear - Hw Hc. induction fs as [|[n v] fs IH]; [reflexivity|].
-    cbn [forallb map] in *. apply andb_true_iff in Hw as [Hf H]. apply andb_true_iff in Hc as [Hcf Hc].
-    rewrite (IH H Hc), andb_true_r.
-    destruct (wf_field_line n v Hf) as (_ & Hch & _ & Hsplit & _ & _).
-    unfold single_colon_line. rewrite Hch, Hsplit. unfold nv_colon_free in Hcf. cbn [fst snd] in Hcf.
-    destruct (String.eqb (lower n) "name" || String.eqb (lower n) "version"); [|reflexivity].
-    unfold has_colon in *. cbn [append ascii_list existsb]. exact Hcf.
+  apply headers_partial.
+  unfold body_harmless, body_lines. rewrite Hspan. cbn [snd].
+  rewrite (spec_reads_rendered fs body Hw). exact Hb.
 Qed.
 
 Definition ex_fields : list (string * string) :=
-  [("Metadata-Version", "2.1"); ("Name", "demo"); ("VERSION", "1.0"); ("Summary", "a: b");
+  [("Metadata-Version", "2.1"); ("Name", "demo:colon"); ("VERSION", "1.0"); ("Summary", "a: b");
    ("Requires-Dist", "requests[security] (>=2.0) ; extra == 'net'"); ("requires-dist", "six")].
 Example rendered_nonvacuous :
-  forallb wf_field ex_fields = true /\ forallb nv_colon_free ex_fields = true /\
-  body_ok ex_fields ("Usage" ++ String nl ("Version: see above" ++ String nl "")) = true /\
+  forallb wf_field ex_fields = true /\
+  body_ok ex_fields ("Usage" ++ String nl ("Version: see above" ++ String nl ("   Requires-Dist: indented" ++ String nl ""))) = true /\
   select_fields (map norm_field ex_fields) =
-    FlatOk "demo" (Some "1.0") ["requests[security] (>=2.0) ; extra == 'net'"; "six"].
+    FlatOk "demo:colon" (Some "1.0") ["requests[security] (>=2.0) ; extra == 'net'"; "six"].
 Proof. vm_compute. repeat split. Qed.
 
 (* ------------------------------------------------------------------------------------ *)
@@ -1442,3 +1433,4 @@ Example read_sequence_nonvacuous :
   [NoSuchFile; Answer (Err MetadataError); Answer (Ok ("a", Some "1", [])); Answer (Ok ("a", Some "2", []));
    Answer (Ok ("a", Some "2", []))].
 Proof. vm_compute. reflexivity. Qed.
+
